@@ -53,6 +53,7 @@ def family(tier):
     out.append(("m-twin-names-2", models.spec([("v", n("1.0")), ("V", n("2.0")), ("v_", n("0.5"))], [("Cm", n("1.0")), ("cm", n("2")), ("c_m", n("3"))],
                                              [("i_K", L.bin_("*", v("Cm"), v("v"))), ("I_K", L.bin_("*", v("cm"), v("V"))), ("iK", L.bin_("*", v("c_m"), v("v_"))),
                                               ("dv_dt", L.bin_("-", v("I_K"), v("i_K"))), ("dV_dt", L.bin_("+", v("iK"), v("i_K"))), ("dv__dt", L.bin_("*", v("I_K"), v("iK")))])))
+    out.append(("m-time-dependent", dict(models.degenerate_specs())["deg|time-dependent"]))
     shapes = models.e3_shapes("quick")
     sel = [(k, s) for k, s in models.e3_specs("quick", variants=True)
            if len(shapes[int(k.split("|")[1])][0]) <= 2 and ("|n0|" in k or tier != "quick")]
@@ -254,9 +255,10 @@ def items(tier):
     return its
 
 
+ROOT_DIR = __import__("os").path.dirname(__import__("os").path.dirname(__import__("os").path.abspath(__file__)))
 _seed_worker = r'''
 import sys, json, os
-sys.path.insert(0, "/verif")
+sys.path.insert(0, sys.argv[3])
 os.environ["GOTRANX_SRC"] = sys.argv[1]
 from checks import c09
 from mc import models
@@ -359,7 +361,7 @@ def run_item(item):
         base = {k: observe(models.spec_text(sp)) for k, sp in family(tier)}
         for seed in item["seeds"]:
             env = dict(os.environ, PYTHONHASHSEED=str(seed), PYTHONDONTWRITEBYTECODE="1")
-            r = subprocess.run(["/venv/bin/python", "-c", _seed_worker, src, tier], capture_output=True, text=True, env=env, timeout=1500)
+            r = subprocess.run(["/venv/bin/python", "-c", _seed_worker, src, tier, ROOT_DIR], capture_output=True, text=True, env=env, timeout=1500)
             res["states"] += 1
             res["transitions"] += 1
             line = [ln for ln in r.stdout.splitlines() if ln.startswith("RESULT ")]
